@@ -59,7 +59,8 @@ Inductive stmt :=
 | SWrite (t : target) (m : wmeth) (text : str)
 | SScope (lv : level) (incr : bool) (n : Z) (body : list stmt)
 | SRaise
-| STry (body : list stmt).
+| STry (body : list stmt)
+| SInSection (body : list stmt).     (* sub = io.section(); body runs on sub; afterwards the program goes on with io *)
 
 Record iost := { io_out : outp; io_err : outp }.
 Definition enter (incr : bool) (n : Z) (o : outp) : outp := with_indent o (if incr then o_indent o + n else n)%Z.
@@ -73,6 +74,19 @@ Definition scope_enter (lv : level) (incr : bool) (n : Z) (st : iost) : iost :=
 Definition scope_exit (lv : level) (saved : iost) (st : iost) : iost :=
   {| io_out := if touches lv TOut then with_indent (io_out st) (o_indent (io_out saved)) else io_out st;
      io_err := if touches lv TErr then with_indent (io_err st) (o_indent (io_err saved)) else io_err st |}.
+
+(* io.section(): both outputs become section outputs of their own (Output.section(): same stream, same formatter, the
+   indentation the output has at that moment); when the body is over the program goes on with the outputs it had - what the
+   sections wrote is on the shared streams, what they did to the shared formatters stays done.  A section made this way
+   is the NEWEST of its output, so it never has anything to erase and print again: alone on its stream as far as its own
+   writes go (stacking is C15). *)
+Definition as_section (o : outp) : outp :=
+  {| o_indent := o_indent o; o_on := o_on o; o_sec := true; o_fmt := o_fmt o; o_buf := o_buf o |}.
+Definition leave_section (parent o : outp) : outp :=
+  {| o_indent := o_indent parent; o_on := o_on parent; o_sec := o_sec parent; o_fmt := o_fmt o; o_buf := o_buf o |}.
+Definition in_sections (st : iost) : iost := {| io_out := as_section (io_out st); io_err := as_section (io_err st) |}.
+Definition out_sections (parent st : iost) : iost :=
+  {| io_out := leave_section (io_out parent) (io_out st); io_err := leave_section (io_err parent) (io_err st) |}.
 
 (* returns the state and whether an exception is propagating *)
 Fixpoint exec (s : stmt) (st : iost) : iost * bool :=
@@ -91,6 +105,7 @@ Fixpoint exec (s : stmt) (st : iost) : iost * bool :=
     let '(st', raised) := run body (scope_enter lv incr n st) in (scope_exit lv st st', raised)
   | SRaise => (st, true)
   | STry body => let '(st', _) := run body st in (st', false)
+  | SInSection body => let '(st', raised) := run body (in_sections st) in (out_sections st st', raised)
   end.
 Fixpoint exec_list (l : list stmt) (st : iost) : iost * bool :=
   match l with
@@ -128,6 +143,7 @@ Fixpoint dec_stmt (fuel : nat) (s : sexp) : option stmt :=
     | None => None end
   | L [A 2%Z] => Some SRaise
   | L [A 3%Z; L body] => match dAll (dec_stmt f) body with Some b => Some (STry b) | None => None end
+  | L [A 4%Z; L body] => match dAll (dec_stmt f) body with Some b => Some (SInSection b) | None => None end
   | _ => None
   end end.
 
@@ -166,6 +182,38 @@ Definition run_C11 (s : sexp) : sexp :=
       | Err k => sErr k
       end
     | _, _ => sBad
+    end
+  (* a history on ONE decorating and ONE undecorated formatter built alike: (0 message style?) format, (1 message)
+     remove_format, (2 style) add_style; every step answers for both formatters; a step that raises leaves its formatter
+     as it was *)
+  | L [A 3%Z; set; L steps] =>
+    match dList dec_cstyle set with
+    | Some set =>
+      match new_formatter (FAnsi false) set, new_formatter FPlain set with
+      | Ok fa, Ok fp =>
+        let one (f : formatter) (st : sexp) : formatter * sexp :=
+          match st with
+          | L [A 0%Z; m; sty] =>
+            match dStr m, dOpt dec_cstyle sty with
+            | Some m, Some sty => match format f m sty with Ok x => (fst x, L [A 0%Z; sStr (snd x)]) | Err k => (f, sErr k) end
+            | _, _ => (f, sBad) end
+          | L [A 1%Z; m] =>
+            match dStr m with
+            | Some m => match remove_format f m with Ok x => (fst x, L [A 0%Z; sStr (snd x)]) | Err k => (f, sErr k) end
+            | None => (f, sBad) end
+          | L [A 2%Z; c] =>
+            match dec_cstyle c with
+            | Some c => match add_style f c with Ok f' => (f', L [A 0%Z; L []]) | Err k => (f, sErr k) end
+            | None => (f, sBad) end
+          | _ => (f, sBad)
+          end in
+        L [A 0%Z; L (snd (fold_left (fun acc st =>
+             let '(fa, fp, out) := acc in
+             let '(fa', ra) := one fa st in let '(fp', rp) := one fp st in (fa', fp', out ++ [L [ra; rp]])) steps (fa, fp, [])))]
+      | Err k, _ => sErr k
+      | _, Err k => sErr k
+      end
+    | None => sBad
     end
   (* programs on an IO *)
   | L [A 1%Z; A stream_ansi; fk; A sec; set; L prog] =>
